@@ -196,6 +196,10 @@ def make_callable(spec, log=None, idx=None):
         def g():
             return body()
         return (g, [1, 2, 3])
+    elif kw == 'tuple_form' or spec.get('tuple_form'):
+        def h(a, b=None, c=3):
+            return body() if (a, b, c) == (1, 'two', 3) else 'wrong arguments %r' % ((a, b, c),)
+        return (h, [1], {'b': 'two'})
     else:
         def f():
             return body()
@@ -365,7 +369,7 @@ def run_py(case):
                 ident = sw.identity()
         else:
             with Swapped() as sw:
-                ret, raised = call(lambda: t.execute(task.Stream(case.get('v'))))
+                ret, raised = call(lambda: t.execute(task.Stream(case.get('stream_v', case.get('v')))))
                 ident = sw.identity()
     oc, tname = outcome_of(ret, raised)
     return {'outcome': oc, 'type': tname, 'out': act.out, 'err': act.err, 'result': canon_res(act.result),
@@ -435,7 +439,10 @@ def make_cmd_action(case, workdir):
         def mk():
             raise ValueError('cannot build the command')
         return action.CmdAction(mk, **kw)
-    if form == 'list':
+    if form in ('rawstr', 'rawlist') and kw == {'save_out': None}:
+        # left to `create_action`: a str becomes CmdAction(shell=True), a list CmdAction(shell=False)
+        return script if form == 'rawstr' else ['sh', '-c', script]
+    if form in ('list', 'rawlist'):
         return action.CmdAction(['sh', '-c', script], shell=False, **kw)
     if form == 'callable':
         return action.CmdAction(lambda: script, **kw)
@@ -480,13 +487,13 @@ def _run_cmd(case):
             os.dup2(f2, 2)
             if case.get('repeat', 1) > 1:
                 with Swapped():
-                    call(lambda: t.execute(task.Stream(case.get('v'))))
+                    call(lambda: t.execute(task.Stream(case.get('stream_v', case.get('v')))))
                 os.ftruncate(f1, 0)
                 os.lseek(f1, 0, os.SEEK_SET)
                 os.ftruncate(f2, 0)
                 os.lseek(f2, 0, os.SEEK_SET)
             with Swapped(o, e) as sw:
-                ret, raised = call(lambda: t.execute(task.Stream(case.get('v'))))
+                ret, raised = call(lambda: t.execute(task.Stream(case.get('stream_v', case.get('v')))))
                 ident = sw.identity()
         finally:
             os.dup2(saved[0], 1)
@@ -545,7 +552,7 @@ def _run_task(case):
                 return execute
             act.execute = wrap(act.execute, i)
         with Swapped() as sw:
-            ret, raised = call(lambda: t.execute(task.Stream(case.get('v', 0))))
+            ret, raised = call(lambda: t.execute(task.Stream(case.get('stream_v', case.get('v', 0)))))
             ident = sw.identity()
         oc, tname = outcome_of(ret, raised)
         return {'outcome': oc, 'type': tname, 'result': canon_res(t.result), 'values': canon_vals(t.values),
